@@ -146,9 +146,41 @@ MERGE_MODEL_THEOREMS = ['Nbdime.C10_model_no_conflict']
 THEOREMS.extend(t for t in MERGE_MODEL_THEOREMS if t not in THEOREMS)
 
 
+def table_obligation(ctx):
+    """per run: the strategy tables nbdime builds for the use-* options (extracted by calling
+    notebook_merge_strategies) meet the hypotheses of C10_model_no_conflict (decide +kernel)"""
+    from nbdime.merging.notebooks import notebook_merge_strategies
+    rows = []
+    for a in mergelib.all_combos():
+        if a.merge_strategy.startswith('use-') and (a.input_strategy is None or a.input_strategy.startswith('use-')) \
+                and (a.output_strategy is None or a.output_strategy.startswith('use-') or a.output_strategy in ('remove', 'clear-all')):
+            st = notebook_merge_strategies(a)
+            rows.append(sorted((k, v) for k, v in dict(st).items() if v is not None))
+    body = ',\n'.join('  [' + ', '.join('(%s, %s)' % (json.dumps(k), json.dumps(v)) for k, v in tab) + ']' for tab in rows)
+    src = ('import NbdimeProofs\nopen Nbdime\n'
+           'def useTables : List (List (String × String)) := [\n' + body + '\n]\n'
+           'set_option maxRecDepth 100000 in\nexample : useTables.length = %d := by decide +kernel\n' % len(rows) +
+           'set_option maxRecDepth 100000 in\nexample : useTables.all (fun t => C10.plainTableB t && '
+           'Merge.isUse ((Merge.Strategies.get ⟨t, []⟩ "/").getD "")) = true := by decide +kernel\n')
+    ok, out = vlib.lean_run(src, 'C10_Tables.lean')
+    ctx.cov['obligations'] += 2
+    ctx.cov['extracted_use_tables'] = len(rows)
+    if ok:
+        ctx.cov['discharged'] += 2
+        return None
+    return out[-500:]
+
+
 def run(ctx):
     from checks import mergemodel
     _run_property(ctx)
+    try:
+        note = table_obligation(ctx)
+    except Exception as e:
+        note = 'extractor failed: %r' % (e,)
+    if note and not ctx.violations:
+        ctx.violation('generated obligation (strategy tables of the use-* options satisfy the hypotheses of C10_model_no_conflict) no longer checks: ' + note,
+                      {'kind': 'obligation', 'theorem': 'gen/C10_Tables.lean', 'output': note}, found=False, classify=False)
     mergemodel.tie(ctx, (50, 20, 600, 200), MERGE_MODEL_THEOREMS, combos=[mergelib.Args('use-base'), mergelib.Args('use-local'), mergelib.Args('use-remote'), mergelib.Args('mergetool'), mergelib.Args('inline', 'use-local', 'use-remote'), mergelib.Args('inline', None, 'use-base', False), mergelib.Args('use-remote', 'inline', None)])
 
 
